@@ -318,6 +318,170 @@ fn cmd_replay(args: &[String]) {
     }
 }
 
+
+/// Shrink a recorded violation while the same violation class persists: drop faults, the
+/// eviction set and the build-directory history, reset every environment dimension to the
+/// reference value, and turn the schedule into "sequential + the fewest deviations".
+/// Rewrites the file in place; exit 0 if it still reproduces afterwards.
+fn cmd_minimise(args: &[String]) {
+    let path = &args[2];
+    let text = std::fs::read_to_string(path).expect("read replay file");
+    let mut v: serde_json::Value = serde_json::from_str(&text).expect("parse replay file");
+    let property = v["property"].as_str().unwrap_or("").to_string();
+    let class = v["class"].as_str().unwrap_or("").to_string();
+    let reference: Plan = serde_json::from_value(v["reference"].clone()).expect("reference plan");
+    let original: Plan = serde_json::from_value(v["plan"].clone()).expect("plan");
+    let budget: usize = arg_value(args, "--runs").and_then(|s| s.parse().ok()).unwrap_or(500);
+    exec::install_panic_hook();
+    sim::install_hooks();
+    let sandbox = scratch_root().join(format!("min-{}", std::process::id()));
+    let _ = std::fs::remove_dir_all(&sandbox);
+    let (ref_res, _, _) = run_plan(&reference, &sandbox, true, false, &|_| vec![]);
+    let reference_rec = ref_res.rec;
+    let runs = std::cell::Cell::new(0usize);
+    let check_prop = original.property.clone();
+    // returns the record when the candidate still shows the violation
+    let still_fails = |cand: &Plan| -> Option<ExecRecord> {
+        if runs.get() >= budget {
+            return None;
+        }
+        runs.set(runs.get() + 1);
+        let _ = std::fs::remove_dir_all(&sandbox);
+        let (res, _, _) = run_plan(cand, &sandbox, true, false, &|rec| judge(&check_prop, cand, &reference_rec, rec));
+        res.violations.iter().any(|x| x.property == property && x.class == class).then_some(res.rec)
+    };
+    let Some(mut best_rec) = still_fails(&original) else {
+        println!("NOT-REPRODUCED before minimising");
+        std::process::exit(3);
+    };
+    let mut best = original.clone();
+    let mut notes: Vec<String> = Vec::new();
+    macro_rules! attempt {
+        ($what:expr, $edit:expr) => {{
+            let mut cand = best.clone();
+            #[allow(clippy::redundant_closure_call)]
+            ($edit)(&mut cand);
+            if cand != best {
+                if let Some(rec) = still_fails(&cand) {
+                    best = cand;
+                    best_rec = rec;
+                    notes.push(format!("not needed: {}", $what));
+                } else {
+                    notes.push(format!("needed: {}", $what));
+                }
+            }
+        }};
+    }
+    // faults, one at a time from the back
+    let mut i = best.faults.len();
+    while i > 0 {
+        i -= 1;
+        let name = format!("fault {} {:?}", best.faults[i].kind, best.faults[i].target);
+        attempt!(name, |p: &mut Plan| {
+            p.faults.remove(i);
+        });
+    }
+    attempt!("eviction set", |p: &mut Plan| p.evict.clear());
+    if best.evict.len() > 1 {
+        let mut i = best.evict.len();
+        while i > 0 && best.evict.len() > 1 {
+            i -= 1;
+            let name = format!("evicting {}", best.evict[i]);
+            attempt!(name, |p: &mut Plan| {
+                p.evict.remove(i);
+            });
+        }
+    }
+    attempt!("build-directory history", |p: &mut Plan| p.history = plan::History::Clean);
+    attempt!("read-back", |p: &mut Plan| p.readback = false);
+    attempt!("hash seed different from the reference run", |p: &mut Plan| p.hash_seed = reference.hash_seed);
+    attempt!("simulated wall clock different from the reference run", |p: &mut Plan| p.epoch = reference.epoch);
+    attempt!("yield points inside job bodies", |p: &mut Plan| p.yield_mask = 0);
+    attempt!("more than one worker", |p: &mut Plan| p.workers = 1);
+    if best.strategy.victim.is_some() {
+        attempt!("a random base schedule (sequential everywhere except around the singled-out job)", |p: &mut Plan| {
+            p.strategy.base = Some("seq".into())
+        });
+    }
+    attempt!("any schedule other than the sequential one", |p: &mut Plan| {
+        p.strategy = plan::Strategy::seq();
+        p.overrides.clear();
+    });
+    let victim_on_seq = best.strategy.victim.is_some() && best.strategy.base.as_deref() == Some("seq");
+    if victim_on_seq {
+        notes.push(format!("schedule: sequential, except that {} is applied to {}", best.strategy.name, best.strategy.victim.clone().unwrap_or_default()));
+    }
+    if best.strategy.name != "seq" && !victim_on_seq {
+        // express the schedule as sequential + deviations, then shrink the deviations (ddmin)
+        let mut cand = best.clone();
+        cand.strategy = plan::Strategy::seq();
+        cand.overrides = best_rec.deviations.clone();
+        if let Some(rec) = still_fails(&cand) {
+            best = cand;
+            best_rec = rec;
+            let mut n = 2usize;
+            while best.overrides.len() >= 2 && runs.get() < budget {
+                let len = best.overrides.len();
+                let chunk = len.div_ceil(n);
+                let mut reduced = false;
+                let mut start = 0;
+                while start < len {
+                    let end = (start + chunk).min(len);
+                    let mut cand = best.clone();
+                    cand.overrides = best.overrides[..start].iter().chain(best.overrides[end..].iter()).cloned().collect();
+                    if let Some(rec) = still_fails(&cand) {
+                        best = cand;
+                        best_rec = rec;
+                        n = (n - 1).max(2);
+                        reduced = true;
+                        break;
+                    }
+                    start = end;
+                }
+                if !reduced {
+                    if n >= len {
+                        break;
+                    }
+                    n = (n * 2).min(len);
+                }
+            }
+            notes.push(format!("schedule reduced to sequential + {} deviations (step, task)", best.overrides.len()));
+        } else {
+            notes.push("schedule kept as a strategy: the deviation list did not reproduce it".to_string());
+        }
+    }
+    // one last verbose run for the annotated log
+    let _ = std::fs::remove_dir_all(&sandbox);
+    let (res, applied, prepared) = run_plan(&best, &sandbox, true, true, &|rec| judge(&check_prop, &best, &reference_rec, rec));
+    let _ = std::fs::remove_dir_all(&sandbox);
+    if let Some(root) = exec::TREE_ROOT.get() {
+        let _ = std::fs::remove_dir_all(root);
+    }
+    let hit = res.violations.iter().find(|x| x.property == property && x.class == class).cloned();
+    let Some(hit) = hit else {
+        println!("minimised plan lost the violation; keeping the original file");
+        std::process::exit(3);
+    };
+    let log = res.rec.log.clone().unwrap_or_default();
+    let tail: Vec<String> = log.iter().rev().take(60).rev().cloned().collect();
+    v["plan"] = serde_json::to_value(&best).unwrap();
+    v["detail"] = json!(hit.detail);
+    v["minimised"] = json!({
+        "runs_used": runs.get(),
+        "notes": notes,
+        "faults_applied": applied,
+        "history": prepared,
+        "steps": res.rec.steps,
+        "log_hash": format!("{:x}", res.rec.log_hash),
+        "event_log_tail": tail,
+        "panics": res.rec.panics,
+        "outcome": res.rec.outcome,
+    });
+    std::fs::write(path, serde_json::to_string_pretty(&v).unwrap()).expect("rewrite replay file");
+    println!("minimised with {} runs: {}", runs.get(), notes.join("; "));
+    let _ = best_rec;
+}
+
 fn main() {
     // the harness itself must not depend on real entropy either
     shims::set_entropy(0x5eed_0000_0000_0001);
@@ -381,6 +545,7 @@ fn main() {
         }
         "check" => cmd_check(&args),
         "replay" => cmd_replay(&args),
+        "minimise" => cmd_minimise(&args),
         "gen" => {
             let seed: u64 = args[2].parse().expect("seed");
             let profile = args[3].clone();
